@@ -413,6 +413,68 @@ def concurrent_send(k):
     c10.concurrent_send(k, tag="C03/concurrent-send")
 
 
+def threaded_clients(nclients, preempt, stale=0, only=None, lines=True):
+    """Responses are delivered by a dispatcher thread (python-can's notifier) while `nclients` client threads, one per
+    remote node, each write a typed value and read it back.  Real OS threads under the deterministic scheduler: every
+    schedule at synchronisation-point granularity, plus up to `preempt` preemptions placed at any source line of
+    canopen code executed by any of the threads (context-bounded).  With `stale` > 0 each client's queue holds that
+    many late answers of an earlier transfer to another object when the transfers start (the queue-swap path)."""
+    from symx.sched import SCondition
+    w = World("threaded")
+    w.node2_noise = False
+    local2 = sx.mod("canopen.node.local").LocalNode(NID2, _od())
+    w.nb.add_node(local2)
+    idx = C.TYPE_INDEX[0x07]
+    vals = [sx.fresh_int("a", 0, 0xFFFFFFFF), sx.fresh_int("b", 0, 0xFFFFFFFF)][:nclients]
+    remotes = [w.remote, w.remote2][:nclients]
+    locals_ = [w.local, local2][:nclients]
+    for r in remotes:
+        for i in range(stale):
+            late = sx.items(sx.fresh_bytes("late%d" % i, 4))
+            r.sdo.on_response(0x580 + r.id, sx.new_bytearray([0x43, 0x00, 0x10, 0x00] + late), 0.5)
+    sched = sx.scheduler(preempt=preempt, delay=True, only=only, lines=lines)
+    cond = SCondition(sched)
+    state = dict(stop=False)
+
+    def send(origin, cid, data, remote=False):
+        with cond:
+            w.log.append((origin, cid, data))
+            w.parked.append((origin, cid, data))
+            cond.notify_all()
+    w.na.send_message = lambda cid, data, remote=False: send("a", cid, data)
+    w.nb.send_message = lambda cid, data, remote=False: send("b", cid, data)
+
+    def dispatcher():
+        while True:
+            with cond:
+                while not w.parked and not state["stop"]:
+                    cond.wait()
+                if not w.parked:
+                    return
+                item = w.parked.pop(0)
+            w._deliver(*item)
+    got = [None] * nclients
+
+    def client(i):
+        remotes[i].sdo[idx].raw = vals[i]
+        got[i] = remotes[i].sdo[idx].raw
+    sched.spawn(dispatcher, "dispatcher")
+    for i in range(1, nclients):
+        sched.spawn(lambda i=i: client(i), "client%d" % i)
+    client(0)
+    sched.wait_until(lambda: sched.done("client"))      # then release the dispatcher
+    with cond:
+        state["stop"] = True
+        cond.notify_all()
+    sched.join()
+    tag = "C03/threads/%d/p%d%s" % (nclients, preempt, "/stale" if stale else "")
+    for i in range(nclients):
+        sx.observe("got%d" % i, got[i])
+        sx.prove(got[i] == vals[i], "value read back by client thread %d" % i, tag + "/read")
+        sx.prove(locals_[i].sdo[idx].raw == vals[i], "value stored in node %d" % i, tag + "/stored")
+    sx.reach("threads")
+
+
 def jobs(tier):
     out = []
     q = tier == "quick"
